@@ -27,6 +27,7 @@ func checkC14(p *Prog, r *Report) {
 	rErr := r.Rule("exit-status-returned", "Wait's error is what Go returns")
 	rIn := r.Rule("stdin-unchanged", "SetInput stores its reader into cmd.Stdin unchanged")
 	checkC14Wrappers(p, r, r.Rule("wrappers-pass-through", "a reader which the implant's own code puts between the transport and the command (a counter, a meter) hands on exactly what its inner Read returned: data which arrives together with the end of the stream is not dropped"))
+	checkC14GroupContext(p, r, r.Rule("group-context-not-a-trigger", "nothing in lib/simpleshell is set off by the context errgroup.WithContext derives (it is cancelled whenever Wait returns, not only on failure): no context.AfterFunc on it, no command started under it"))
 	checkC14HandedOnBuffers(p, r, r.Rule("buffers-not-refilled", "a reader of the implant which fills a fixed set of buffers in turn and hands the filled slices over a channel has at least capacity+2 buffers (one with the consumer, those queued, one being filled)"))
 	checkC14SessionUnbounded(p, r, r.Rule("session-unbounded", "nothing in lib/simpleshell puts a clock on the whole exchange (http.Client.Timeout covers reading the response body, i.e. the input stream, and sending the request body, i.e. the output stream)"))
 
@@ -102,6 +103,10 @@ func checkC14(p *Prog, r *Report) {
 					return
 				}
 				switch fv.Name() {
+				case "WaitDelay":
+					if k, isK := constInt(x.Val); !isK || 0 != k {
+						rPipes.Bad(fmt.Sprintf("%s:cmd.WaitDelay", fnName(fn)), posOf(i), "cmd.WaitDelay is set: once the command's context is done and the delay has passed os/exec closes the parent ends of the stdout/stderr pipes itself, without Wait being called — output written but not yet read is thrown away whatever CmdShell.Go's drain-before-Wait order")
+					}
 				case "Stdout", "Stderr":
 					rPipes.Bad(fmt.Sprintf("%s:cmd.%s", fnName(fn), fv.Name()), posOf(i), "cmd.%s is assigned: os/exec then copies that descriptor in a goroutine of its own which CmdShell.Go does not join before closing the output, so bytes written just before exit are lost", fv.Name())
 				}
@@ -996,5 +1001,48 @@ func checkC14SessionUnbounded(p *Prog, r *Report, ru *Rule) {
 	}
 	if 0 == n {
 		ru.OK("lib/simpleshell:no-session-clock", token.NoPos, "no http.Client.Timeout and no deadline context around the request or the command")
+	}
+}
+
+
+// checkC14GroupContext: the context errgroup.WithContext returns is cancelled
+// "the first time a function passed to Go returns a non-nil error or the
+// first time Wait returns, whichever occurs first" — so something hung on it
+// with context.AfterFunc (killing the child, closing a pipe) fires on every
+// run, as soon as the output copiers are joined and before cmd.Wait.
+func checkC14GroupContext(p *Prog, r *Report, ru *Rule) {
+	n := 0
+	for _, fn := range p.Funcs() {
+		if nil == fn.Pkg || !strings.HasSuffix(fn.Pkg.Pkg.Path(), "/"+sshPkg) {
+			continue
+		}
+		eachInstr(fn, func(i ssa.Instruction) {
+			c := callCommon(i)
+			if nil == c || 0 == len(c.Args) {
+				return
+			}
+			name := calleeName(c)
+			switch name {
+			case "context.AfterFunc", "os/exec.CommandContext":
+			default:
+				return
+			}
+			fromGroup := false
+			for _, x := range valueRoots(c.Args[0], func(s string) bool {
+				return "context.WithCancel" == s || "context.WithCancelCause" == s || "context.WithValue" == s || "context.WithoutCancel" == s
+			}) {
+				if "call" == x.Kind && "golang.org/x/sync/errgroup.WithContext" == x.Callee && 1 == x.Idx {
+					fromGroup = true
+				}
+			}
+			if !fromGroup {
+				return
+			}
+			n++
+			ru.Bad(fnName(fn)+"→"+name, posOf(i), "%s hangs on the context errgroup.WithContext derived, which is cancelled as soon as Wait returns — on every run, when both output descriptors have reached EOF and before cmd.Wait: a child which closed its output and is still reading its input is killed (or cut off) there", name)
+		})
+	}
+	if 0 == n {
+		ru.OK("simpleshell:group-context", 0, "nothing is triggered by an errgroup's derived context")
 	}
 }
